@@ -21,7 +21,10 @@ from mutants.table import MUTANTS  # noqa
 
 
 def apply(tmp, m):
-    for (rel, old, new) in m["edits"]:
+    if m.get("revert"):
+        diff = subprocess.run(["git", "-C", REPO, "show", m["revert"], "--", "adb_shell"], capture_output=True, text=True, check=True).stdout
+        subprocess.run(["patch", "-R", "-p1", "-s"], input=diff, text=True, cwd=tmp, check=True)
+    for (rel, old, new) in m.get("edits", []):
         p = os.path.join(tmp, rel)
         s = open(p).read()
         if s.count(old) < 1:
